@@ -58,7 +58,7 @@ def run_case(case: dict[str, Any], col: Collector | None = None) -> list[tuple[s
             if isinstance(o, (list, tuple)) and o and o[0] == "bytes":
                 b = o[1]
             else:
-                b = vecu.resolve(tuple(o), d.model, ref.session, d.prev, d.last_seed)
+                b = vecu.resolve(tuple(o), d.model, ref.session, d.prev, d.last_seed, d.seen_seed)
             if not b:
                 continue
             res = check_step(d, ref, b, off, step, case, col)
@@ -138,6 +138,12 @@ def check_step(d: vecu.Driver, ref: vecu.RefState, b: bytes, off: set[str], step
                 out.append(("C13/structure/reply-of-other-service", f"{ctx}: reply {reply.hex()[:40]}"))
     if reply is not None and reply[0] == sid + 0x40 and sid in (0x10, 0x11, 0x27):
         pos_sid = sid
+    if sid == 0x27 and len(b) >= 2 and (b[1] & 0x7F) % 2 == 0 and reply is not None and reply[0] == 0x67 and not off:
+        # a key is only accepted for the seed that is still pending (same level, handed out by the directly preceding exchange,
+        # accepted keep-alives aside)
+        if last_seed is None or last_seed[0] + 1 != (b[1] & 0x7F) or b[2:] != last_seed[1]:
+            out.append(("C13/state/key-accepted-without-pending-seed", f"{ctx}: {reply.hex()} although " +
+                        ("no seed is pending" if last_seed is None else f"the pending seed is {last_seed[1].hex()} for level {last_seed[0]:#x}")))
     if reply is not None and reply[0] == 0x7F:
         pos_sid = None
     # reference state tracker
